@@ -86,6 +86,7 @@ func (r *Rtmp2RtspRemuxer) FeedRtmpMsg(msg base.RtmpMsg) {
 			if samplerate, ok := meta.Find("audiosamplerate").(float64); ok {
 				r.audioSampleRate = int(samplerate)
 			}
+			r.normalizeAudioSampleRate()
 		}
 		return
 	case base.RtmpTypeIdAudio:
@@ -98,21 +99,13 @@ func (r *Rtmp2RtspRemuxer) FeedRtmpMsg(msg base.RtmpMsg) {
 			switch msg.AudioCodecId() {
 			case base.RtmpSoundFormatG711U:
 				r.audioPt = base.AvPacketPtG711U
-				if r.audioSampleRate < 0 {
-					r.audioSampleRate = pcmDefaultSampleRate
-				}
 			case base.RtmpSoundFormatG711A:
 				r.audioPt = base.AvPacketPtG711A
-				if r.audioSampleRate < 0 {
-					r.audioSampleRate = pcmDefaultSampleRate
-				}
 			case base.RtmpSoundFormatOpus:
 				r.audioPt = base.AvPacketPtOpus
-				if r.audioSampleRate < 0 {
-					r.audioSampleRate = opusDefaultSampleRate
-				}
 			}
 		}
+		r.normalizeAudioSampleRate()
 	case base.RtmpTypeIdVideo:
 		if len(msg.Payload) <= 5 {
 			Log.Warnf("rtmp msg too short, ignore. header=%+v, payload=%s", msg.Header, hex.Dump(msg.Payload))
@@ -162,6 +155,22 @@ func (r *Rtmp2RtspRemuxer) FeedRtmpMsg(msg base.RtmpMsg) {
 	}
 
 	r.remux(msg)
+}
+
+// normalizeAudioSampleRate
+//
+// g711、opus的rtp时钟频率。注意，audioPt可能由metadata中的audiocodecid确定，也可能由第一个音频包确定，
+// 两处确定之后都需要调用，否则metadata中没有audiosamplerate时时钟频率是-1
+func (r *Rtmp2RtspRemuxer) normalizeAudioSampleRate() {
+	switch r.audioPt {
+	case base.AvPacketPtG711U, base.AvPacketPtG711A:
+		if r.audioSampleRate <= 0 {
+			r.audioSampleRate = pcmDefaultSampleRate
+		}
+	case base.AvPacketPtOpus:
+		// opus的rtp时钟频率固定是48000（RFC 7587），sdp中也是这么写的，和metadata中声明的采集采样率无关
+		r.audioSampleRate = opusDefaultSampleRate
+	}
 }
 
 func (r *Rtmp2RtspRemuxer) doAnalyze() {
